@@ -1,8 +1,8 @@
 (* C08 — Quoting and escaping deliver values verbatim.  (lexer and PostgreSQL-scanner halves) *)
 Require Import Parser PgModel.
 Require Lex.
-Require LexQuote LexField PgQuote PgIdent.
-Require Import Render Printer QuotePipeline.
+Require LexQuote LexField LexEscape PgQuote PgIdent.
+Require Import Render Printer QuotePipeline EscapePipeline.
 From Coq Require Import List String Ascii NArith ZArith.
 Import ListNotations.
 
@@ -49,7 +49,52 @@ Theorem C08_quoted_value_parameter : forall (o2 : oracle2) (fs w : string),
   render_param o2 (E (VExp (lit (VCol fs))) Equals (VExp (lit (VStr w))) one_bits 1%Z) = Ret ((col_text fs ++ " = ?")%string, [VStr w], None).
 Proof. exact quoted_value_parameter. Qed.
 
+(* ---- the escaping clause (ASCII texts) ----
+   esc_b w: w written as a bare word with a backslash before every byte that is not a letter, digit or underscore (wordc).
+   The whole input  f:esc(w)  lexes to exactly [Literal f; Colon; Literal esc(w); EOF] for every ASCII text w (any operators,
+   quotes, blanks, brackets, slashes ...), provided the escaped spelling is not one of the four keywords;
+   oracle facts: the double quote, the colon and the backslash are not letters or digits, whitespace runes are not alphanumeric *)
+Theorem C08_escaped_value_is_one_token : forall cl : Lex.classes,
+  Lex.is_letter cl 34%N = false /\ Lex.is_digit cl 34%N = false ->
+  Lex.is_letter cl 58%N = false /\ Lex.is_digit cl 58%N = false ->
+  Lex.is_letter cl 92%N = false /\ Lex.is_digit cl 92%N = false ->
+  (forall r, Lex.is_space r = true -> Lex.is_alnum cl r = false) ->
+  forall (c0 : ascii) (f : list ascii) (d0 : ascii) (w : list ascii),
+  forallb (LexField.wordc cl) (c0 :: f) = true -> Lex.word_type (c0 :: f) = TLiteral ->
+  forallb LexEscape.asciib (d0 :: w) = true -> Lex.word_type (LexEscape.esc_b cl (d0 :: w)) = TLiteral ->
+  Lex.lex cl ((c0 :: f) ++ ":"%char :: LexEscape.esc_b cl (d0 :: w)) =
+  [ {| Lex.typ := TLiteral; Lex.val := c0 :: f |}; {| Lex.typ := TColon; Lex.val := [":"%char] |};
+    {| Lex.typ := TLiteral; Lex.val := LexEscape.esc_b cl (d0 :: w) |}; Lex.eof_tok ].
+Proof. exact LexEscape.lex_field_escaped. Qed.
+
+(* from the tokens to the tree: a Literal token whose text es loses its backslashes to w, holds no wildcard character and does
+   not read as a number (strconv decides: oracle) gives EQUALS(column, literal w) - w as a plain, non-pattern value. (A text with
+   a star or question mark stays a pattern and a backslash in w itself is lost: known finding K7, outside these premises.)
+   The inline SQL and the parameter list of that tree are the ones of the quoting clause (same tree). *)
+Theorem C08_escaped_value_tree : forall (o : oracle) (ftok : token) (fs es w : string),
+  is_term_tok ftok = true -> parse_literal o ftok = lit (VStr fs) ->
+  atoi es = None ->
+  match parse_float o es with Some f => is_nan_or_inf o f = true | None => True end ->
+  contains_char "*"%char es = false -> contains_char "?"%char es = false ->
+  remove_char "\"%char es = w ->
+  parse_toks o "" [ftok; colon_tok; word_tok es; eof] = PTree (E (VExp (lit (VCol fs))) Equals (VExp (lit (VStr w))) one_bits 1%Z).
+Proof. exact escaped_value_tree. Qed.
+
+(* and the escaped spelling meets those premises: removing the backslashes from esc(w) gives w back for every w without a
+   backslash, and esc(w) holds a star or question mark only if w does *)
+Theorem C08_escaped_spelling_loses_only_its_backslashes : forall (cl : Lex.classes) (l : list ascii),
+  forallb (fun c => negb (Ascii.eqb c "\"%char)) l = true ->
+  remove_char "\"%char (string_of_list_ascii (LexEscape.esc_b cl l)) = string_of_list_ascii l.
+Proof. exact esc_remove. Qed.
+
+Theorem C08_escaped_spelling_adds_no_wildcard : forall (cl : Lex.classes) (x : ascii), Ascii.eqb "\"%char x = false -> forall l : list ascii,
+  contains_char x (string_of_list_ascii (LexEscape.esc_b cl l)) = contains_char x (string_of_list_ascii l).
+Proof. exact esc_contains. Qed.
+
 Print Assumptions C08_quoted_value_is_one_token.
+Print Assumptions C08_escaped_value_is_one_token.
+Print Assumptions C08_escaped_value_tree.
+Print Assumptions C08_escaped_spelling_loses_only_its_backslashes.
 Print Assumptions C08_quoted_value_tree.
 Print Assumptions C08_quoted_value_inline_sql.
 Print Assumptions C08_quoted_value_parameter.
